@@ -167,6 +167,8 @@ def gen_ops(rng, prop, knobs, profile):
         elif kind == "AGE":
             op["key"] = rng.randrange(K)
             op["delta"] = rng.choice([-1, -10**6, -10**9, -3600 * 10**9, -86400 * 10**9 * 3, 10**9, 3600 * 10**9])
+            if rng.random() < 0.3:
+                op["delta_a"] = rng.choice([-10**9, -3600 * 10**9, -86400 * 10**9 * 3, 0, 3600 * 10**9])
         elif kind == "REOPEN":
             op["size"] = None if rng.random() < 0.6 else int(knobs["max_bytes"] * rng.choice([0.5, 1, 2]))
             op["evict"] = rng.random() < 0.3
@@ -213,6 +215,8 @@ def fault_kinds_for(kd, parallel=True):
     kinds += ["EIO", "ENOSPC", "SHORT_WRITE", "EMFILE", "RENAME_EIO"]
     if kd["pp"]:
         kinds += ["PP_ERR_BEFORE", "PP_ERR_MID", "PP_ERR_AFTER"]
+        if not parallel:
+            kinds += ["PP_INTERRUPT_MID"]
     return kinds
 
 
